@@ -23,22 +23,32 @@ PID = "C13"
 
 MANIFEST = dict(
     category="model_checking",
-    technique="TLC enumerates the complete abstract case space of Malformed.tla (format x mode x prefix x malformed "
-              "class x trailing; description defects x target) and validates, with TraceMalformed.tla, what the real "
-              "providers did on every rendered case against the reader state machine whose alphabet has no "
-              "Panic/Crash/Hang; byte-level mutation fuzz is checked against the outcome alphabet and prefix rule.",
+    technique="TLC enumerates the complete abstract case space of Malformed.tla (format x mode x prefix x malformed class x trailing; "
+              "description defects x target; configuration files as text: pool-schema node x value shape x yaml/json/toml with the "
+              "verdict computed by CfgSchema.tla; property files as line-token sequences; degenerate-only files with counted rewinds) "
+              "and validates, with TraceMalformed.tla, what the real providers / the real CLI config reader + engine did on every "
+              "rendered case against the reader state machine whose alphabet has no Panic/Crash/Hang/Spin; ByteEdit.tla and "
+              "LineEdit.tla compute the expected outcome of byte- and line-level edits of valid files (LineEdit: by an abstract reader "
+              "per format) and TraceByteEdit / TraceLineEdit compare; byte-level mutation fuzz is checked against the outcome "
+              "alphabet and prefix rule.",
     design_ref="DESIGN.md §4 C13",
-    text="Design level: reader machine per format/mode with invariants (prefix unchanged, no silent accept, no false "
-         "reject, streaming delivers the prefix, progress bound), exhaustive, three negative controls. Conformance: "
-         "every TLC-enumerated case is rendered and run through the real constructors/Run/Acquire (scenario: plus the "
-         "real pre/postprocessors and templater on the acquired ammo) in child processes under RLIMIT_AS; a process "
-         "death, a recovered panic or a confirmed hang is an event outside the alphabet, so the trace is rejected. "
-         "This is the right level because the property is a universal statement over input classes whose outcome "
-         "is a small relation (class x format x mode -> rejected/skipped/delivered prefix).",
-    note="Bounds: prefix <= 2 (thorough 3), trailing <= 1 (thorough 2), passes=1. Trusted: renderers/projections in "
-         "harness/cmd/vdrive/malformed_*.go and the step loop mirroring ScenarioGun.shootStep. 'All byte strings' is "
-         "only sampled (seeded fuzz); there the spec contributes just {ok,error} + prefix rule. grpc scenario "
-         "postprocessors and real network responses are not exercised (C19).")
+    text="Design level: reader machine per format/mode with invariants (prefix unchanged, no silent accept, no false reject, streaming "
+         "delivers the prefix, progress bound, every rewind is paid for by a delivery, a rejected pool is named), exhaustive, six "
+         "negative controls (+ two for LineEdit, one for ByteEdit). Conformance: every TLC-enumerated case is rendered and run through "
+         "the real constructors/Run/Acquire (scenario: plus the real pre/postprocessors and templater on the acquired ammo; "
+         "configuration text: cli.readConfig = viper + DecodeAndValidate with every plugin registered, then a real engine against a "
+         "local target) in child processes under RLIMIT_AS; a process death, a recovered panic, a confirmed hang, a run that had to "
+         "be cancelled or a provider that keeps rewinding its file is an event outside the alphabet, so the trace is rejected. This "
+         "is the right level because the property is a universal statement over input classes whose outcome is a small relation "
+         "(class x format x mode -> rejected/skipped/delivered prefix, stage of the rejection).",
+    note="Bounds: prefix <= 2 (thorough 3), trailing <= 1 (thorough 2); configuration trees in yaml (thorough: + json, toml), one "
+         "defect per file; property files of <= 2 lines (thorough 3); line edits on 2-entry files (thorough 4), one edit. Trusted: "
+         "renderers/projections in harness/cmd/vdrive/malformed_*.go (incl. the YAML/JSON/TOML serialisers of malformed_cfg.go) and "
+         "the step loop mirroring ScenarioGun.shootStep. 'All byte strings' is only sampled (seeded fuzz); there the spec contributes "
+         "just {ok,error} + prefix rule. `lax` classes (what a grammar allows but the statement does not pin, malformed data files) "
+         "decide only no-crash/no-hang and stage consistency. Not decided: polynomial slowness of third-party parsers on deep "
+         "nesting (viper key search is cubic in the depth of mappings; go-toml has no depth limit), operator chains of > 1 MB in HCL, "
+         "the grpc gun (unknown call / payload vs message type / reflection unavailable), real network responses (C19).")
 
 
 def parse_prints(r):
